@@ -2236,9 +2236,12 @@ def run(ctx):
                     oracle_warn(ctx, env)
                 finally:
                     try:
-                        oracle_collision(ctx, env)
+                        oracle_foreign_module(ctx, env)
                     finally:
-                        oracle_inside_template(ctx)
+                        try:
+                            oracle_collision(ctx, env)
+                        finally:
+                            oracle_inside_template(ctx)
     finally:
         shutil.rmtree(root, ignore_errors=True)
         # modules imported from the scratch module directories
@@ -2283,6 +2286,13 @@ def replay(ctx, data):
             except Exception as e:
                 print("  (model view unavailable: %r)" % (e,))
             return not [p for p in probs if not p[0].startswith("harness:")]
+        if case.get("module_file_state"):
+            c2 = type(ctx)(ctx.pid, "thorough", data.get("seed", 0))
+            oracle_foreign_module(c2, env)
+            bad = [v for v in c2.violations if v["case"]["module_file_state"] == case["module_file_state"]]
+            for v in bad[:3]:
+                print("  ", v["site"], v["case"]["action"], v["detail"])
+            return not c2.violations
         if "action" in case:
             c = {"name": case["position"], "templates": dict(case.get("templates") or {}, main=case["input"]),
                  "expected": tuple(case["expected"]), "exact": case["expected"][1], "literal": case["literal"],
@@ -2413,3 +2423,82 @@ def corr_plan(ctx):
     finally:
         MT._compile_module_file, MT.compat.load_module = orig_cmf, orig_load
         shutil.rmtree(root, ignore_errors=True)
+
+
+# --------------------------------------------------------------------------------------------------
+# oracle: a module file that is there already, is NOT older than the template, but is not this template's
+
+def oracle_foreign_module(ctx, env):
+    """module-directory construction whose module path holds a recent module file that (A) was generated from
+    ANOTHER template file (two roots with the same URI sharing one module_directory; a moved template tree;
+    Template(filename=B, module_filename=M written for A)) or (B) carries another _magic_number: the module is
+    loaded, rejected, regenerated and loaded again (the second regeneration path of _compile_from_file).  A
+    warning-triggering literal of the template loaded now must be shown exactly once, against this template."""
+    from mako.lookup import TemplateLookup
+    from mako.template import Template
+    st = ctx.stream("oracle.warnings_foreign_module_file", "oracle")
+    col = Collector(ctx, "oracle.warnings_foreign_module_file")
+    rounds = 1 if ctx.quick else 4
+    for rd in range(rounds):
+        cases = [c for c in warning_cases(ctx.rng) if not c["name"].startswith("attr:") and c["literal"]
+                 and len(c["templates"]) == 1]
+        if ctx.quick:
+            cases = [c for c in cases if c["name"] in ("expr", "code-block", "module-block", "control-if", "in-def", "expr-second-line")]
+        for case in cases:
+            msgsub = LITERALS[case["literal"]][1]
+            text = case["templates"]["main"]
+            line = case["expected"][1]
+            for state in ("other-source-file", "other-source-file:module_filename", "other-magic-number"):
+                for action in ("always", "once"):
+                    env.n += 1
+                    base = os.path.join(env.root, "f%d" % env.n)
+                    r1, r2, mods = os.path.join(base, "r1"), os.path.join(base, "r2"), os.path.join(base, "mods")
+                    os.makedirs(r1)
+                    os.makedirs(r2)
+                    with open(os.path.join(r1, "main.html"), "w") as f:
+                        f.write("another template\n${'x'}\n")
+                    fn = os.path.join(r2, "main.html")
+                    with open(fn, "w") as f:
+                        f.write(text)
+                    mfile = None
+                    with warnings.catch_warnings():
+                        warnings.simplefilter("ignore")
+                        if state == "other-source-file":
+                            TemplateLookup(directories=[r1], module_directory=mods).get_template("/main.html")
+                            mp = os.path.join(mods, "main.html.py")
+                        elif state == "other-source-file:module_filename":
+                            mp = mfile = os.path.join(base, "shared_module.py")
+                            Template(filename=os.path.join(r1, "main.html"), module_filename=mfile)
+                        else:
+                            TemplateLookup(directories=[r2], module_directory=mods).get_template("/main.html")
+                            mp = os.path.join(mods, "main.html.py")
+                            src = open(mp, "rb").read().replace(b"_magic_number = ", b"_magic_number = 1000 + ")
+                            with open(mp, "wb") as f:
+                                f.write(src)
+                    shutil.rmtree(os.path.join(os.path.dirname(mp), "__pycache__"), ignore_errors=True)
+                    t = os.stat(fn).st_mtime + 10
+                    os.utime(mp, (t, t))                      # recent: not older than the template
+                    raised = None
+                    with warnings.catch_warnings(record=True) as rec:
+                        warnings.simplefilter(action)
+                        try:
+                            if mfile:
+                                Template(filename=fn, module_filename=mfile)
+                            else:
+                                TemplateLookup(directories=[r2], module_directory=mods).get_template("/main.html")
+                        except Exception as e:
+                            raised = e
+                    shown = [(w.filename, w.lineno) for w in rec if msgsub in str(w.message)]
+                    st["cases"] += 1
+                    ctx.branch("oracle:foreign-module:" + state)
+                    cd = {"input": text, "position": case["name"], "literal": case["literal"], "path": "moddir",
+                          "action": action, "expected": ["main", line], "module_file_state": state}
+                    if raised is not None:
+                        col.add("warning:foreign-module-file:exception", len(text), cd, {"raised": repr(raised)[:200]})
+                    elif shown != [(fn, line)]:
+                        what = ("not-shown" if not shown else
+                                "filename" if any(x[0] != fn for x in shown) else
+                                "line" if any(x[1] != line for x in shown) else "shown-more-than-once")
+                        col.add("warning:foreign-module-file:%s:%s" % (what, state.split(":")[0]), len(text), cd,
+                                {"shown": shown, "want": [fn, line]})
+    col.flush()
